@@ -63,6 +63,15 @@ def build(case):
     else:
         pop = popbuild.build(
             case['spec'], case['n_ids'] if case['spec']['kind'] == 'Red' else None)
+    if case.get('rename_reset'):
+        # user-given parameter / dimension names that are reset to the defaults
+        # again before the model is used
+        pop.set_n_ids(case['n_ids'])
+        n_ = len(pop.get_parameter_names())
+        pop.set_parameter_names(['custom %d' % i for i in range(n_)])
+        pop.set_parameter_names(None)
+        pop.set_dim_names(['dd%d' % i for i in range(pop.n_dim())])
+        pop.set_dim_names(None)
     cov = None if case['cov'] is None else np.array(case['cov'])
     return chi.HierarchicalLogLikelihood(build_likelihoods(case), pop, cov)
 
